@@ -29,7 +29,8 @@ fn note_alloc(size: usize) -> bool {
     });
     let _ = FAIL_AT.try_with(|f| {
         let n = f.get();
-        if n > 0 {
+        // (a panic that has started formats its message on the heap before any hook runs: never refuse that)
+        if n > 0 && !std::thread::panicking() {
             f.set(n - 1);
             if n == 1 {
                 ok = false;
@@ -104,6 +105,15 @@ pub fn attr_end() -> i64 { ATTR_ON.with(|o| o.set(false)); ATTR_BYTES.with(|b| b
 
 // ---- failure injection (C13)
 pub fn fail_nth(n: u64) { FAILED.with(|f| f.set(0)); FAIL_AT.with(|f| f.set(n)); }
+/// a panic is starting: its own machinery (payload string, backtrace) must not be refused memory
+pub fn fail_suspend() { FAIL_AT.with(|f| f.set(0)); }
+/// allocations of the harness' own bookkeeping made while the library runs are never the ones refused
+pub fn own<R>(f: impl FnOnce() -> R) -> R {
+    let saved = FAIL_AT.try_with(|x| x.replace(0)).unwrap_or(0);
+    let r = f();
+    if saved > 0 { let _ = FAIL_AT.try_with(|x| x.set(saved)); }
+    r
+}
 pub fn fail_off() -> u64 { FAIL_AT.with(|f| f.set(0)); FAILED.with(|f| f.get()) }
 pub fn count_begin() { ALLOC_COUNT.with(|a| a.set(0)); COUNT_ON.with(|c| c.set(true)); }
 pub fn count_end() -> u64 { COUNT_ON.with(|c| c.set(false)); ALLOC_COUNT.with(|a| a.get()) }
